@@ -1162,6 +1162,8 @@ impl<RW: QueueRW<T>, T> Drop for InnerRecv<RW, T> {
 
 impl<RW: QueueRW<T>, T> Drop for MultiQueue<RW, T> {
     fn drop(&mut self) {
+        #[cfg(multiqueue2_verif)]
+        let _quiet = crate::verif_hooks::quiet();
         if RW::do_drop() {
             // everything that's tagged shouldn't be dropped
             // otherwise, everything else is valid and waiting to be read
